@@ -83,6 +83,38 @@ fn out_bytes(f: impl FnOnce(&mut Vec<u8>) -> color_eyre::Result<()>) -> Value {
     }
 }
 
+/// persistent builds keep each history's tree on its own storage location, so that a history can contain a restart
+/// of the node (flush, drop, re-create on the same location); the in-memory builds just carry on
+#[cfg(not(feature = "stateless"))]
+fn tree_cfg(phase: &str, hist: usize) -> Value {
+    if cfg!(all(feature = "pmtree", not(feature = "fullmerkletree"))) {
+        let p = std::env::temp_dir().join(format!("zkexec-cfg-{}-{}-{}", std::process::id(), phase, hist));
+        let _ = std::fs::remove_dir_all(&p);
+        json!({"path": p.to_string_lossy(), "temporary": false})
+    } else {
+        Value::Null
+    }
+}
+
+#[cfg(not(feature = "stateless"))]
+fn restart(rln: &mut Option<RLN>, cfg: &Value) {
+    if cfg.is_null() {
+        return;
+    }
+    if let Some(mut r) = rln.take() {
+        let _ = catch(AssertUnwindSafe(|| r.flush()));
+        drop(r);
+        *rln = crate::rln_exec::new_rln(20, cfg).ok();
+    }
+}
+
+#[cfg(not(feature = "stateless"))]
+fn cleanup(phase: &str, hists: usize) {
+    for h in 0..=hists {
+        let _ = std::fs::remove_dir_all(std::env::temp_dir().join(format!("zkexec-cfg-{}-{}-{}", std::process::id(), phase, h)));
+    }
+}
+
 /// phase "produce": replay the history, record roots and paths, produce messages
 #[cfg(not(feature = "stateless"))]
 pub fn produce(scenario: &[Value], out: &mut Vec<Value>, msgs: &mut Vec<Value>) {
@@ -93,11 +125,20 @@ pub fn produce(scenario: &[Value], out: &mut Vec<Value>, msgs: &mut Vec<Value>) 
     out.push(json!({"t": "keyfiles", "cfg": CONFIG, "eq": key_files_equal()}));
     let mut rln: Option<RLN> = None;
     let mut hist = 0usize;
+    let mut tcfg = Value::Null;
     for (k, op) in scenario.iter().enumerate() {
         match op["c"].as_str().unwrap() {
             "reset" => {
                 hist += 1;
-                rln = new_rln(20, &Value::Null).ok();
+                drop(rln.take());
+                tcfg = tree_cfg("produce", hist);
+                rln = new_rln(20, &tcfg).ok();
+            }
+            "restart" => {
+                restart(&mut rln, &tcfg);
+                let Some(r) = rln.as_mut() else { continue };
+                out.push(json!({"t": "step", "cfg": CONFIG, "hist": hist, "k": k, "res": true,
+                                "root": out_bytes(|o| r.get_root(o)), "next": r.leaves_set()}));
             }
             "reg" => {
                 // leaf = H(H(s), limit) computed with the library's hash of THIS build
@@ -144,6 +185,8 @@ pub fn produce(scenario: &[Value], out: &mut Vec<Value>, msgs: &mut Vec<Value>) 
             }
         }
     }
+    drop(rln);
+    cleanup("produce", hist);
 }
 
 /// phase "verify": replay each history up to the point where a message was produced and verify it
@@ -153,12 +196,16 @@ pub fn verify_others(scenario: &[Value], msgs: &[Value], out: &mut Vec<Value>) {
     use crate::rln_exec::{apply, enc_fr, new_rln};
     let mut rln: Option<RLN> = None;
     let mut hist = 0usize;
+    let mut tcfg = Value::Null;
     for (k, op) in scenario.iter().enumerate() {
         match op["c"].as_str().unwrap() {
             "reset" => {
                 hist += 1;
-                rln = new_rln(20, &Value::Null).ok();
+                drop(rln.take());
+                tcfg = tree_cfg("verify", hist);
+                rln = new_rln(20, &tcfg).ok();
             }
+            "restart" => restart(&mut rln, &tcfg),
             "reg" => {
                 let Some(r) = rln.as_mut() else { continue };
                 let rc = rln::hashers::poseidon_hash(&[rln::hashers::poseidon_hash(&[fv(&op["s"])]), fv(&op["lim"])]);
@@ -181,6 +228,8 @@ pub fn verify_others(scenario: &[Value], msgs: &[Value], out: &mut Vec<Value>) {
             }
         }
     }
+    drop(rln);
+    cleanup("verify", hist);
 }
 
 /// the stateless build: no tree; verifies every message given the producer's root, and reports its key
